@@ -193,3 +193,47 @@ def chan_exhaustive(prop, harness, cfg, budget, targets, scratch, known_path, se
                                     "tapes_in_space": expected, "exhaustive_within_bound": total == expected,
                                     "alphabet": "W_WRITE{1,2,cap-1,to-end} W_MAP(2) W_COMMIT W_ABORT R_READ{r0 all,r0 1 byte,r0 none,r1 all} R_MAP(r0) R_UNMAP(r0 all) ACCEPT{0,1} PREWAIT(on)"}}
     return stats, cands, extra
+
+
+# ------------------------------------------------------------------------------------------ rt
+def rt_fault_enum(prop, harness, cfg, budget, targets, scratch, known_path, seed, env_base, nworkers, full):
+    """C09: for each base scenario the k-th camera frame call / storage append fails, for every k from 0
+    to past the end of the acquisition, ended by stop and by abort, under two schedules, followed by a
+    fault-free acquisition.  Token kinds of harness/rt/rt.cpp."""
+    exe = targets["rp"].out
+    RUN, STREAM, CAM, PACE, AVG, DELAY, RING, FAULT, CONFIGURE, START, STOP_DONE, STOP_NOW, ABORT, ABORT_OTHER, TRIGGER, MAP, UNMAP, SLEEP, GET_STATE, REINIT, SCHED = range(21)
+    nframes = 12
+    cam = tok(CAM, 0, 12, 8, nframes - 1)  # stream 0, u8, 4x3 pixels, 12 frames
+    nopace = 40  # PACE field a: no "no-frame" returns, no hardware-id gaps, no trigger
+    scenarios = {
+        "source-blocked": cam + tok(PACE, nopace, 0) + tok(DELAY, 0, 0, 3) + tok(RING, 1, 1),      # camera as fast as possible, 30 ms per append, ring 1.5 frames
+        "paced": cam + tok(PACE, nopace, 3) + tok(RING, 3, 3),                                     # 1 ms period, ring 2.5 frames
+        "two-streams": cam + tok(CAM, 1, 5, 9, 8) + tok(STREAM, 1 | 2 | 16) + tok(PACE, nopace, 2) + tok(RING, 2, 2),
+        "monitored": cam + tok(PACE, nopace, 1) + tok(RING, 4, 4),
+    }
+    tapes = []
+    points = 0
+    ks = list(range(0, nframes + 3)) if full else [0, 1, 2, 3, 5, 8, nframes - 1, nframes, nframes + 2]
+    for name, base in scenarios.items():
+        for site in (1, 2):
+            for k in ks:
+                for end in ("stop", "abort"):
+                    for sched in ((0, 0, 0, 0), (1, 977, 31337, 4242)):
+                        t = tok(SCHED, *sched) if sched[1] else b""
+                        t += base + tok(FAULT, (site - 1) << 1, k, 1) + tok(START)
+                        if name == "monitored":
+                            t += tok(MAP, 0)
+                        t += (tok(STOP_DONE) if end == "stop" else tok(SLEEP, 7) + tok(ABORT))
+                        t += tok(RUN, 4, 1000 + k, 77, 5)  # a fault-free acquisition afterwards
+                        tapes.append(("%s-site%d-k%d-%s-s%d" % (name, site, k, end, sched[0]), t))
+                        points += 1
+        for site in (3, 4):  # storage start / camera start fail
+            for end in ("stop", "abort"):
+                t = base + tok(FAULT, (site - 1) << 1, 0, 1) + tok(START) + (tok(STOP_DONE) if end == "stop" else tok(ABORT)) + tok(RUN, 4, 999, 77, 5)
+                tapes.append(("%s-site%d-%s" % (name, site, end), t))
+                points += 1
+    stats, cands, _ = run_batches(exe, tapes, scratch, env_base, "fault-enumeration", nworkers, "rtenum")
+    extra = {"fault_enumeration": {"scenarios": list(scenarios), "fault_sites": ["camera get_frame #k", "storage append #k", "storage start", "camera start"],
+                                   "frame_indices": ks, "endings": ["stop", "abort"], "schedules": 2, "fault_points_enumerated": points,
+                                   "every_index": bool(full)}}
+    return stats, cands, extra
